@@ -358,13 +358,20 @@ def check_deny(db, rep, units=None):
 
 
 def check_escape(db, rep, tls_objs, units=None):
-    """no function returns the address of / a reference to a thread-local object"""
+    """no interface function returns the address of / a reference to a thread-local object"""
     n = 0
+    local_helpers = []
     for un in (units or UNITS):
         unit = db.unit(un)
         for f in unit.functions:
             ret = f.get('ret', '')
             if not (ret.endswith('*') or ret.endswith('&')):
+                continue
+            # a helper that is defined in a source file and is no class member can only be called from that file: handing
+            # its thread-local scratch to such a caller, on the same thread, is no escape (what the caller does with it is
+            # judged where it happens: a return from an interface function, or a store into shared state, below)
+            if not f.get('record') and str(unit.loc(f)).startswith('src/'):
+                local_helpers.append((unit, f))
                 continue
             for node in walk(f.get('body')):
                 if node.get('k') == 'ReturnStmt':
@@ -373,6 +380,29 @@ def check_escape(db, rep, tls_objs, units=None):
                             n += 1
                             rep.fail('E.escape', f['name'], unit.loc(node), 'thread-local scratch never escapes by pointer or reference',
                                      'returns %s derived from thread-local %s' % (ret, x.get('name')), f['name'])
+    # ... and a file-local helper that returns its thread-local scratch: an interface function that passes the result on,
+    # or a static initialised from it, is the escape
+    helper_names = set()
+    for hu, hf in local_helpers:
+        if any(x.get('k') == 'DeclRefExpr' and x.get('tls') for node in walk(hf.get('body')) if node.get('k') == 'ReturnStmt' for x in walk(node)):
+            helper_names.add(hf['name'])
+    if helper_names:
+        for un in (units or UNITS):
+            unit = db.unit(un)
+            for f in unit.functions:
+                ret = f.get('ret', '')
+                interface = f.get('record') or not str(unit.loc(f)).startswith('src/')
+                for node in walk(f.get('body')):
+                    if node.get('k') == 'ReturnStmt' and interface and (ret.endswith('*') or ret.endswith('&')):
+                        if any(x.get('k') == 'CallExpr' and x.get('callee') in helper_names for x in walk(node)):
+                            n += 1
+                            rep.fail('E.escape', f['name'], unit.loc(node), 'thread-local scratch never escapes by pointer or reference',
+                                     'returns %s obtained from %s, which hands out its thread-local scratch' % (ret, sorted(helper_names)[0]), f['name'])
+                    if node.get('k') == 'VarDecl' and node.get('staticLocal') and not node.get('tls') and node.get('init') is not None:
+                        if any(x.get('k') == 'CallExpr' and x.get('callee') in helper_names for x in walk(node['init'])):
+                            n += 1
+                            rep.fail('E.escape', '%s@%s' % (node.get('name'), f['name']), unit.loc(node), 'thread-local scratch never escapes by pointer or reference',
+                                     'static %s (shared by all threads) is initialised from %s, which hands out its thread-local scratch' % (node.get('name'), sorted(helper_names)[0]), f['name'])
     # the address of a thread-local object stored in an object that all threads share (a non-thread-local static):
     # every thread then works on the storage of whichever thread ran the initialiser
     for un in (units or UNITS):
